@@ -119,7 +119,7 @@ def main():
     if a.replay:
         return replay(a.replay)
     seed = int(os.environ.get("VERIF_SEED", "0") or 0)
-    watchdog(int(os.environ.get("PYVC_WATCHDOG_S", "0") or 0) or (2400 if a.tier == "quick" else 6 * 3600))
+    watchdog(int(os.environ.get("PYVC_WATCHDOG_S", "0") or 0) or (840 if a.tier == "quick" else 6 * 3600))
     return check_property(a.property, a.tier, seed, a.jobs, a.verbose)
 
 
@@ -196,7 +196,7 @@ def check_property(prop, tier, seed, jobs, verbose):
             items.append((name, None, None, timeout_ms, thorough))
             for var in lm.contract_kw.get("variants", []):
                 items.append((name, None, tuple(sorted(var.items())), timeout_ms, thorough))
-    results = runner.run_items(items, jobs) if items else []
+    results = runner.run_items(items, jobs, item_timeout=780 if tier == "quick" else 5 * 3600) if items else []
 
     # ---- triage --------------------------------------------------------------------------------
     known = load_known()
